@@ -302,3 +302,10 @@ package layout
 //@   let ox = min(a.X + a.Width, b.X + b.Width) - max(a.X, b.X)
 //@   let oy = min(a.Y + a.Height, b.Y + b.Height) - max(a.Y, b.Y)
 //@   ensures more_than_half_of_the_smaller_box: r <==> (ox > 0.0 && oy > 0.0 && ox * oy > min(a.Width * a.Height, b.Width * b.Height) * 0.5 && !(a.X + a.Width < b.X || b.X + b.Width < a.X) && !(a.Y + a.Height < b.Y || b.Y + b.Height < a.Y))
+
+// ---- C15: a nested NUMBERED item is indented by four columns per level (two from the nesting, two more), so that it lies
+// past the three-column marker "1. " of its parent and a Markdown parser nests it ----
+//@ func (*List) ToMarkdown
+//@   property C15
+//@   flags callsites
+//@   callsite Repeat(s, n) requires numbered_items_indented_past_the_parent_marker: s == " " && n == len(indent)
